@@ -220,6 +220,7 @@ def run(repo: Repo, rep: Report, tier: str) -> None:
                 rep.check(ok, "finality-source", f"{m.name.replace('pynetdicom.', '')}.{qualname(node)}", node, "service class status table is not one of the verified tables of status.py", mod=m, node=node)
     rep.floor("statuses bindings", n_cls, 20)
     _delegate_finality(repo, rep, tier)
+    _delegate_scp_finality(repo, rep, tier)
 
 
 def _delegate_finality(repo, rep, tier):
@@ -241,3 +242,14 @@ def _delegate_finality(repo, rep, tier):
             f2["detail"] = f["detail"] + " - the decision that a response is not final no longer follows its status category"
             rep.obligations.append(f2)
             rep.failures.append(f2)
+
+
+def _delegate_scp_finality(repo, rep, tier):
+    """'... and SCP decisions about whether a response is final follow that category': C20's typestate
+    decides, per SCP, that a response of a non-Pending category closes the request (nothing is sent
+    after it) and that every path ends with such a response; its failures are failures of this
+    property when the category of the response decides the branch."""
+    from ..delegate import delegate
+
+    rep.rule("scp-finality", "in every SCP a response whose category is not Pending is the last one for its request, and every request gets one (C20's after-final / no-final rules)")
+    delegate(repo, rep, tier, "C20", ("after-final", "no-final"), "scp-finality", "the SCP's decision that a response is (not) final does not follow the category of its status: a Warning / Failure / Cancel / Success status is followed by another response, or a request is left without a final one")
